@@ -268,7 +268,8 @@ impl<S: PageSize> Add<u64> for Page<S> {
     type Output = Self;
     #[inline]
     fn add(self, rhs: u64) -> Self::Output {
-        Page::containing_address(self.start_address() + rhs * S::SIZE)
+        let offset = rhs.checked_mul(S::SIZE).expect("attempt to multiply with overflow");
+        Page::containing_address(self.start_address() + offset)
     }
 }
 
@@ -283,7 +284,8 @@ impl<S: PageSize> Sub<u64> for Page<S> {
     type Output = Self;
     #[inline]
     fn sub(self, rhs: u64) -> Self::Output {
-        Page::containing_address(self.start_address() - rhs * S::SIZE)
+        let offset = rhs.checked_mul(S::SIZE).expect("attempt to multiply with overflow");
+        Page::containing_address(self.start_address() - offset)
     }
 }
 
